@@ -509,3 +509,24 @@ func (r *race) waitBlocked(soft, hard time.Duration) (ok bool, dump string) {
 		}
 	}
 }
+
+// pollUntilBlocked polls cond up to soft; after that it keeps polling (up to hard) for as long
+// as some goroutine inside the code under test is still runnable.
+func pollUntilBlocked(soft, hard time.Duration, cond func() bool) bool {
+	if pollUntil(soft, cond) {
+		return true
+	}
+	start := time.Now()
+	for time.Since(start) < hard-soft {
+		if _, prog := repoGoroutines(0); !prog {
+			time.Sleep(50 * time.Millisecond)
+			if _, prog2 := repoGoroutines(0); !prog2 {
+				return cond()
+			}
+		}
+		if pollUntil(300*time.Millisecond, cond) {
+			return true
+		}
+	}
+	return cond()
+}
